@@ -50,8 +50,7 @@ class ShapeDescriptionBase:
         self.thermoFactorMin = 1
 
     def _processAspectRatio(self, ar):
-        ar = np.atleast_1d(ar)
-        ar[ar < 1] = 1
+        ar = np.maximum(np.atleast_1d(ar), 1)
         return ar
 
     def eccentricity(self, ar):
